@@ -67,6 +67,8 @@ HOSTILE_SIZES = {
     "hostile_strings": ([1, 4, 16, 64], [1, 4, 16, 64]),
     "hostile_arith": ([1, 2, 3], [1, 2, 3, 4, 6, 8, 12, 16]),
     "hostile_tower": ([1, 2], [1, 2, 3, 4, 6, 8]),
+    "hostile_doubling": ([4, 8, 12, 16], [4, 8, 12, 16, 24, 32, 48]),
+    "hostile_squaring": ([4, 8, 12], [4, 8, 12, 16, 24, 32, 48]),
 }
 THOROUGH_EXTRA = {"hostile_strings": [256, 1024, 4096], "nested_loops": [18]}
 
@@ -83,7 +85,8 @@ def group_of(spec):
 
 
 def const_fold_open():
-    return common.classify(ID, (ID, "const-fold", "nop2", "watchdog"))[0] == "known"
+    """step-over switch: true while the unbounded-constant-folding finding (either facet) is listed as open"""
+    return any(common.classify(ID, (ID, "const-fold", "nop2", k))[0] == "known" for k in ("watchdog", "memory"))
 
 
 def sizes_for(family, tier):
@@ -104,11 +107,13 @@ def sizes_for(family, tier):
 # ---------------------------------------------------------------------------------------------------
 # one run with the retry-once watchdog policy
 
-def run_once(files, p2, wall_s, step_budget, count_calls=False, retry=True):
-    r = runner.run_project(files, p2, wall_s=wall_s, step_budget=step_budget, count_calls=count_calls)
+def run_once(files, p2, wall_s, step_budget, count_calls=False, retry=True, mem_headroom=None):
+    kw = dict(wall_s=wall_s, step_budget=step_budget, count_calls=count_calls,
+              mem_headroom=mem_headroom or runner.MEM_HEADROOM)
+    r = runner.run_project(files, p2, **kw)
     r["attempts"] = 1
     if r["status"] == "watchdog" and retry:
-        r2 = runner.run_project(files, p2, wall_s=wall_s, step_budget=step_budget, count_calls=count_calls)
+        r2 = runner.run_project(files, p2, **kw)
         r2["attempts"] = 2
         return r2
     return r
@@ -353,7 +358,7 @@ def check_case(case, col=None):
         known = common.classify(ID, (ID, group, flagstr(p2), "watchdog"))[0] == "known" and not os.environ.get("VERIF_CONFIRM")
         # a hit of an already listed finding needs no second attempt (the retry only guards against machine noise)
         r = run_once(case_files(case), p2, wall_s, int(case.get("step_budget") or runner.DEFAULT_STEP_BUDGET),
-                     retry=not known)
+                     retry=not known, mem_headroom=(int(case["mem_headroom_mb"]) << 20) if case.get("mem_headroom_mb") else None)
         record_run(col, r, spec, p2)
         d = judge_terminal(r, spec or group, p2, wall_s, group=group)
         if d:
